@@ -84,6 +84,14 @@ func (g *orderGen) node(depth int) *jsonschema.Schema {
 		}
 	}
 	names := sortedKeys(s.Properties)
+	if len(names) >= 3 && r.IntN(6) == 0 && !g.hasDup { // (a replaced child must not be the one that carries the duplicate list)
+		// one sub-schema OBJECT as the value of two properties (addr := &Schema{...}; "billing": addr, "shipping": addr), with
+		// other properties emitted between the two occurrences
+		i, j := r.IntN(len(names)), r.IntN(len(names))
+		if i != j {
+			s.Properties[names[j]] = s.Properties[names[i]]
+		}
+	}
 	switch mode := r.IntN(12); mode {
 	case 0: // nil
 	case 1:
